@@ -5,7 +5,7 @@ build(prop) returns an Engine whose registry holds every class table and contrac
 from pyvc.engine import Engine, Source
 from pyvc.registry import Registry
 
-AREAS = ["base", "sched", "tokens", "coroutines", "specs", "types", "filters", "runner", "fsops", "objects", "hashing", "serial", "cli"]
+AREAS = ["base", "sched", "tokens", "coroutines", "specs", "types", "filters", "runner", "objects", "fsops", "hashing", "serial", "cli"]
 
 
 def build(prop=None, areas=None):
